@@ -81,6 +81,8 @@ SeqToSet(s) == {s[i] : i \in 1..Len(s)}
 (*     aood, ami, amo : always-out-of-date, allow-missing-inputs,           *)
 (*             allow-modified-outputs                                       *)
 (*     tag   : what the (deterministic) body writes in front of its inputs  *)
+(*     keep  : the body leaves an output untouched when it already has the  *)
+(*             content it would write (a "write if changed" generator)      *)
 (*     reads : sequence of node names the body reads beyond its declared    *)
 (*             inputs and reports through its dependency file               *)
 (*     depsok: the dependency file the body writes is well formed           *)
@@ -175,7 +177,9 @@ RECURSIVE WriteOuts(_,_,_,_)
 WriteOuts(F, F0, c, j) ==       \* F0: the file system the body read its inputs from
   IF j > Len(Cmd(c).outs) THEN F
   ELSE LET o == Cmd(c).outs[j] IN
-       WriteOuts(IF NodeRec(o).kind = "file" THEN WriteFile(F, PathOf(o), BodyText(F0, c, j)) ELSE F, F0, c, j + 1)
+       WriteOuts(IF NodeRec(o).kind # "file" THEN F
+                 ELSE IF Cmd(c).keep /\ F[PathOf(o)].t = "file" /\ F[PathOf(o)].c = BodyText(F0, c, j) THEN F   \* write-if-changed body
+                 ELSE WriteFile(F, PathOf(o), BodyText(F0, c, j)), F0, c, j + 1)
 BodyFails(F, c) == Cmd(c).failif # "" /\ Exists(F, PathOf(Cmd(c).failif))
 RunBody(F, c) ==
   IF BodyFails(F, c) /\ Cmd(c).failpt = "before" THEN [fs |-> F, ok |-> FALSE]
@@ -453,9 +457,10 @@ Upstream(cs, n) == IF n = 0 THEN cs ELSE
   Upstream(cs \cup UNION {Producers(x) : x \in UNION {SeqToSet(Cmd(c).ins) : c \in cs}}, n - 1)
 StrictUpstream(c) == Upstream(UNION {Producers(x) : x \in SeqToSet(Cmd(c).ins)}, Cardinality(Cmds))
 NonPhony(cs) == {c \in cs : Cmd(c).tool # "phony"}
+OrderingOnly(c) == Cmd(c).tool \in {"phony", "symlink"}     \* these tools never read their inputs (symlink inputs are must-follow)
 FailureStops ==
   IsBuild => /\ (FailedNow # {} => ~last.ok)
-             /\ \A c \in RanSet : Cmd(c).tool = "phony" \/ NonPhony(StrictUpstream(c)) \cap FailedNow = {}
+             /\ \A c \in RanSet : OrderingOnly(c) \/ NonPhony(StrictUpstream(c)) \cap FailedNow = {}
 (* ... and the recorded result of a failed or skipped command is never valid *)
 FailureRetried ==
   \A c \in Cmds : Get(mem, CK(c)).val.k \in {"FailedCommand", "PropagatedFailureCommand", "CancelledCommand", "SkippedCommand"}
